@@ -66,6 +66,25 @@ def materialise(root, cont, top_modules=()):
     return files
 
 
+def add_fake_extensions(root, cont):
+    """empty files with extension-module names (ABI-tagged and plain) in every package of the tree: importlib can
+    find and enumerate them without loading; they are compared for LISTINGS only (loading an empty .so fails)"""
+    import importlib.machinery as mach
+    sufs = mach.EXTENSION_SUFFIXES
+    made = []
+
+    def rec(d, c, pkg):
+        if pkg is not None:
+            for i, suf in enumerate(sufs):
+                f = os.path.join(d, 've%d%s' % (i, suf))
+                open(f, 'w').close()
+                made.append((pkg, 've%d' % i))
+        for name, sub in c[1]:
+            rec(os.path.join(d, name), sub, (pkg + '.' + name) if pkg else name)
+    rec(root, cont, None)
+    return made
+
+
 def ref_find(name, roots):
     """-> spec or None, descending component by component (no module is executed)"""
     path = list(roots) + sys.path
@@ -154,7 +173,7 @@ def supp_resolve(P, rel, filename):
         return 'EXC:%s' % type(e).__name__
 
 
-def check_tree(workdir, t1, t2, top2, order, part):
+def check_tree(workdir, t1, t2, top2, order, part, extensions=False):
     """one pair of roots in one order -> list of (sig, what)"""
     out = []
     seen = set()
@@ -168,6 +187,8 @@ def check_tree(workdir, t1, t2, top2, order, part):
     r1, r2 = os.path.join(workdir, 'r1'), os.path.join(workdir, 'r2')
     f1 = materialise(r1, t1)
     f2 = materialise(r2, t2, top2)
+    if extensions:
+        add_fake_extensions(r1, t1)
     importlib.invalidate_caches()
     roots = [r1, r2] if order == 0 else [r2, r1]
     P = Project(list(roots))
@@ -187,6 +208,9 @@ def check_tree(workdir, t1, t2, top2, order, part):
         r = compare_name(P, name, roots, tag)
         if r:
             add(r[0], 'name %r with roots %s: importlib %s, supp %s' % (name, [os.path.basename(x) for x in roots], strip(r[1], workdir), strip(r[2], workdir)))
+    if extensions:
+        # a fake extension must not make resolution of the ordinary names disagree; its own name is not resolved (cannot be loaded)
+        pass
     # ---- relative specifiers from every file
     for files in (f1, f2):
         for filename, pkg in files:
@@ -318,9 +342,10 @@ def unit(arg):
             for order in (0, 1):
                 part.count('evaluations')
                 wd = os.path.join(workdir, 't%d_%d' % (lo + i, order))
-                for sig, what in check_tree(wd, t1, t2, top2, order, part):
+                ext = (lo + i) % 7 == 0
+                for sig, what in check_tree(wd, t1, t2, top2, order, part, extensions=ext):
                     part.violation(sig, what + '\n tree: root r1=%r root r2=%r extra top modules in r2=%r order=%s' % (t1, t2, top2, 'r1,r2' if order == 0 else 'r2,r1'),
-                                   {'kind': 'tree', 't1': t1, 't2': t2, 'top2': list(top2), 'order': order})
+                                   {'kind': 'tree', 't1': t1, 't2': t2, 'top2': list(top2), 'order': order, 'ext': ext})
                 shutil.rmtree(wd, ignore_errors=True)
             if (lo + i) % 400 == 3:
                 part.sample({'root1': repr(t1), 'root2': repr(t2), 'top2': list(top2)}, limit=2)
@@ -351,7 +376,7 @@ def replay(w):
         return check_stdlib(part)
     wd = tempfile.mkdtemp(prefix='c07r_')
     try:
-        return check_tree(os.path.join(wd, 't'), to_t(w['t1']), to_t(w['t2']), tuple(w['top2']), w['order'], part)
+        return check_tree(os.path.join(wd, 't'), to_t(w['t1']), to_t(w['t2']), tuple(w['top2']), w['order'], part, extensions=w.get('ext', False))
     finally:
         shutil.rmtree(wd, ignore_errors=True)
 
